@@ -5135,13 +5135,16 @@ bool SoPlexBase<R>::getBasisInverseTimesVecReal(R* rhs, R* sol, bool unscale)
             assert(index < numRows());
             assert(!_solver.isRowBasic(index));
 
-            x[i] = v[index] - (rowVectorRealInternal(index) * VectorBase<R>(numCols(), y.get_ptr()));
+            R activity = rowVectorRealInternal(index) * VectorBase<R>(numCols(), y.get_ptr());
 
+            // v is given in the unscaled space: only the activity of the scaled row has to be unscaled
             if(adaptScaling)
             {
                scaleExp = -_scaler->getRowScaleExp(index);
-               x[i] = spxLdexp(x[i], scaleExp);
+               activity = spxLdexp(activity, scaleExp);
             }
+
+            x[i] = v[index] - activity;
          }
          else
          {
